@@ -55,6 +55,7 @@ class Model:
         self.meaningful = frozenset()
         self.wrapped_aes = b""
         self.wrapped_rsa = b""
+        self.foot = set()        # retiring events the token has been through (close-all / last close): part of the state key, see key()
 
 
 class C01(CheckBase):
@@ -200,11 +201,13 @@ class C01(CheckBase):
                         o.alive = False
                 if not any(s[1] == t for s in m.sess):
                     m.login[t] = PUBLIC
+                    m.foot.add(("last-close", t))
         elif k == "closeall":
             t = a[1]
             if p.CloseAllSessions(slots[t])["rv"] == 0:
                 m.sess = [s for s in m.sess if s[1] != t]
                 m.login[t] = PUBLIC
+                m.foot.add(("close-all", t))
                 if t == "A":
                     for o in m.objs.values():
                         if not o.token:
@@ -425,7 +428,8 @@ class C01(CheckBase):
         return bytes.fromhex(r.get("out", ""))[:r.get("len", 0)] if r["rv"] == 0 else bytes(24)
 
     def key(self, ctx, m):
-        return (tuple(sorted(m.login.items())), tuple((t, rw) for h, t, rw in m.sess), frozenset(l for l, o in m.objs.items() if o.alive))
+        # the footprint keeps apart states the model holds equal but the library reached through different bookkeeping paths (close-all vs last close)
+        return (tuple(sorted(m.login.items())), tuple((t, rw) for h, t, rw in m.sess), frozenset(l for l, o in m.objs.items() if o.alive), tuple(sorted(m.foot)))
 
     def died_sig(self, action, d):
         return "C01|%s|%r" % (action[0] if action else None, d.info)
